@@ -1,11 +1,475 @@
 import Driver.Json
+import OomdModel.CgStats
 
-/-! Driver glue for engine `fsread` (stub: not built yet). -/
+/-! Driver glue for engine `fsread` (C15).
+
+`accepts` : the operational model (lazy per-tick cache, `OomdModel.CgStats` with `α = Float`) run on the
+            scenario's operations reproduces every value the real `CgroupContext` returned.
+`holds`   : evaluated on the implementation's trace alone:
+  * `reference`  every value obtained while the files have not changed since the tick began equals the
+                 stateless reference function `refAcc` of the files and of the tick history
+                 (temporal values: as long as no earlier tick changed files mid-tick);
+  * `stable`     once a value was obtained it does not change until the next tick;
+  * `identity`   ids are a one-to-one function of the directory incarnation;
+  * `system`     swap totals, swappiness, vmstat and the swap-out averages follow /proc.
+-/
 namespace Driver.Fsread
-open Lean
+open Lean OomdModel.FsRead OomdModel.CgStats
+open OomdModel.Path (Str)
+
+def l2s (l : Str) : String := String.ofList l
+
+/-! ## the simulated cgroupfs (same operations as `harness/h_fsread.cpp`) -/
+
+structure DirNode where
+  inc : Nat
+  rpath : List String
+  alive : Bool
+  files : List (String × String)
+  xattrs : List String
+
+structure FS where
+  dirs : List DirNode
+  next : Nat
+  proc : List (String × String)
+  dtype : Bool
+
+namespace FS
+def find (fs : FS) (rp : List String) : Option DirNode := fs.dirs.find? fun d => d.alive && d.rpath == rp
+def byInc (fs : FS) (inc : Nat) : Option DirNode := fs.dirs.find? fun d => d.inc == inc
+def modify (fs : FS) (inc : Nat) (f : DirNode → DirNode) : FS :=
+  { fs with dirs := fs.dirs.map fun d => if d.inc == inc then f d else d }
+
+def ensure : FS → List String → FS × Nat
+  | fs, [] =>
+    match fs.find [] with
+    | some d => (fs, d.inc)
+    | none => ({ fs with dirs := fs.dirs ++ [{ inc := fs.next, rpath := [], alive := true, files := [], xattrs := [] }],
+                         next := fs.next + 1 }, fs.next)
+  | fs, n :: parent =>
+    match fs.find (n :: parent) with
+    | some d => (fs, d.inc)
+    | none =>
+      let fs := (ensure fs parent).1
+      ({ fs with dirs := fs.dirs ++ [{ inc := fs.next, rpath := n :: parent, alive := true, files := [], xattrs := [] }],
+                 next := fs.next + 1 }, fs.next)
+
+def setFile (fs : FS) (inc : Nat) (name : String) (content : Option String) : FS :=
+  fs.modify inc fun d =>
+    let rest := d.files.filter fun kv => kv.1 != name
+    { d with files := match content with | some c => rest ++ [(name, c)] | none => rest }
+
+def setX (fs : FS) (inc : Nat) (name : String) (on : Bool) : FS :=
+  fs.modify inc fun d =>
+    let rest := d.xattrs.filter (· != name)
+    { d with xattrs := if on then name :: rest else rest }
+
+def comps (p : String) : List String := (p.splitOn "/").filter (· ≠ "")
+
+/-- `rm -rf`: the directory and everything below it is gone; held descriptors see an empty, dead directory -/
+def rmdir (fs : FS) (rp : List String) : FS :=
+  { fs with dirs := fs.dirs.map fun d =>
+      if d.alive && rp.isSuffixOf d.rpath then { d with alive := false, files := [] } else d }
+
+partial def materialize (fs : FS) (rp : List String) (node : Json) : FS :=
+  let (fs, inc) := fs.ensure rp
+  let fs := match jobj node "files" with
+    | Json.obj kvs => kvs.foldl (fun fs k v => match v with
+        | Json.str c => fs.setFile inc k (some c)
+        | _ => fs.setFile inc k none) fs
+    | _ => fs
+  let fs := match jobj node "xattrs" with
+    | Json.obj kvs => kvs.foldl (fun fs k _ => fs.setX inc k true) fs
+    | _ => fs
+  (jarr node "children").foldl (fun fs ch => materialize fs (jstr ch "name" :: rp) ch) fs
+
+def writePath (fs : FS) (path : String) (content : Option String) : FS :=
+  match (comps path).reverse with
+  | [] => fs
+  | name :: rp =>
+    match fs.find rp with
+    | some d => fs.setFile d.inc name content
+    | none => fs
+
+def setProc (fs : FS) (name : String) (content : Option String) : FS :=
+  let rest := fs.proc.filter fun kv => kv.1 != name
+  { fs with proc := match content with | some c => rest ++ [(name, c)] | none => rest }
+
+def apply (fs : FS) (op : Json) : FS :=
+  match jstr op "op" with
+  | "write" => fs.writePath (jstr op "path") (some (jstr op "data"))
+  | "unlink" => fs.writePath (jstr op "path") none
+  | "rmdir" => fs.rmdir (comps (jstr op "path")).reverse
+  | "mkdir" => fs.materialize (comps (jstr op "path")).reverse (jobj op "node")
+  | "proc" => fs.setProc (jstr op "name") (jstr? op "data")
+  | "setx" => match fs.find (comps (jstr op "path")).reverse with
+    | some d => fs.setX d.inc (jstr op "name") true
+    | none => fs
+  | "rmx" => match fs.find (comps (jstr op "path")).reverse with
+    | some d => fs.setX d.inc (jstr op "name") false
+    | none => fs
+  | _ => fs
+
+def isFsop (k : String) : Bool := ["write", "unlink", "rmdir", "mkdir", "proc", "setx", "rmx"].contains k
+
+def world (fs : FS) : World where
+  openDir p := (fs.find (p.map l2s)).map (·.inc)
+  openChild inc nm := match fs.byInc inc with
+    | some d => if d.alive then (fs.find (l2s nm :: d.rpath)).map (·.inc) else none
+    | none => none
+  file inc name := match fs.byInc inc with
+    | some d => (d.files.find? fun kv => kv.1 == l2s name).map fun kv => linesOf kv.2.toList
+    | none => none
+  entries inc := match fs.byInc inc with
+    | some d =>
+      if d.alive then
+        (fs.dirs.filterMap fun c => match c.rpath with
+          | nm :: rest => if c.alive && rest == d.rpath then some (nm.toList, EntKind.dir) else none
+          | [] => none) ++ d.files.map fun kv => (kv.1.toList, EntKind.reg)
+      else []
+    | none => []
+  dtype := fs.dtype
+  xattr inc name := match fs.byInc inc with
+    | some d => d.xattrs.contains (l2s name)
+    | none => false
+  inode inc := inc
+  proc name := (fs.proc.find? fun kv => kv.1 == (l2s name).replace "/" "_").map fun kv => linesOf kv.2.toList
+end FS
+
+/-! ## accessors and JSON -/
+
+def accOf (name : String) : Option Acc :=
+  match name with
+  | "children" => some (.field .children)
+  | "mem_pressure" => some (.field .memPressure)
+  | "mem_pressure_some" => some (.field .memPressureSome)
+  | "io_pressure" => some (.field .ioPressure)
+  | "io_pressure_some" => some (.field .ioPressureSome)
+  | "memory_stat" => some (.field .memoryStat)
+  | "io_stat" => some (.field .ioStat)
+  | "id" => some (.field .id)
+  | "current_usage" => some (.field .currentUsage)
+  | "swap_usage" => some (.field .swapUsage)
+  | "swap_max" => some (.field .swapMax)
+  | "memory_low" => some (.field .memoryLow)
+  | "memory_min" => some (.field .memoryMin)
+  | "memory_high" => some (.field .memoryHigh)
+  | "memory_high_tmp" => some (.field .memoryHighTmp)
+  | "memory_max" => some (.field .memoryMax)
+  | "nr_dying_descendants" => some (.field .nrDying)
+  | "is_populated" => some (.field .isPopulated)
+  | "kill_preference" => some (.field .killPreference)
+  | "oom_group" => some (.field .oomGroup)
+  | "effective_swap_max" => some (.field .effSwapMax)
+  | "effective_swap_free" => some (.field .effSwapFree)
+  | "effective_swap_util_pct" => some (.field .effSwapUtil)
+  | "memory_protection" => some (.field .memoryProtection)
+  | "io_cost_cumulative" => some (.field .ioCostCum)
+  | "pg_scan_cumulative" => some (.field .pgScanCum)
+  | "average_usage" => some (.field .averageUsage)
+  | "io_cost_rate" => some (.field .ioCostRate)
+  | "pg_scan_rate" => some (.field .pgScanRate)
+  | "anon_usage" => some .anon
+  | "file_usage" => some .file
+  | "shmem_usage" => some .shmem
+  | "memory_growth" => some .growth
+  | other =>
+    match other.splitOn "/" with
+    | ["effective_usage"] => some (.effUsage 1 0)
+    | ["effective_usage", a, b] => match a.toInt?, b.toInt? with
+      | some x, some y => some (.effUsage x y)
+      | _, _ => none
+    | _ => none
+
+/-- depends on the archive of the previous tick -/
+def isTemporal (name : String) : Bool :=
+  ["average_usage", "io_cost_rate", "pg_scan_rate", "memory_growth"].contains name
+
+def jInt (i : Int) : Json := Json.num (JsonNumber.fromInt i)
+def jNat (n : Nat) : Json := Json.num (JsonNumber.fromNat n)
+def fbits (x : Float) : Json := jNat x.toBits.toNat
+
+def decBits (d : Dec) : Json :=
+  let x : Float32 := OfScientific.ofScientific d.mant true d.exp
+  jNat (if d.neg then -x else x).toBits.toNat
+
+def sortStrs (l : List String) : List String := (l.toArray.qsort (· < ·)).toList
+
+def valJson : Val Float → Json
+  | .int i => jInt i
+  | .num x => fbits x
+  | .bool b => Json.bool b
+  | .strs l => mkStrs (sortStrs (l.map l2s))
+  | .psi p => Json.arr #[decBits p.a10, decBits p.a60, decBits p.a300,
+      match p.total with | some t => jInt t | none => Json.null]
+  | .kv m => Json.mkObj (m.map fun kv => (l2s kv.1, jInt kv.2))
+  | .io l => Json.arr (l.map fun d => Json.arr #[Json.str (l2s d.devId), jInt d.rbytes, jInt d.wbytes,
+      jInt d.rios, jInt d.wios, jInt d.dbytes, jInt d.dios]).toArray
+
+def resJson : Res (Val Float) → Json
+  | .ok v => valJson v
+  | .unavailable => Json.null
+  | .crash c => Json.mkObj [("crash", Json.str c)]
+
+def sysJson (sx : SysCtx Float) : Json :=
+  Json.mkObj [("swaptotal", jNat sx.swaptotal), ("swapused", jNat sx.swapused), ("swappiness", jInt sx.swappiness),
+    ("swapout_bps", fbits sx.swapoutBps), ("swapout_bps_60", fbits sx.swapoutBps60),
+    ("swapout_bps_300", fbits sx.swapoutBps300),
+    ("vmstat", Json.mkObj (sx.vmstat.map fun kv => (l2s kv.1, jInt kv.2)))]
+
+def relPath (rp : List String) : String := "/".intercalate rp.reverse
+
+/-! ## configuration -/
+
+def coeffsOf (j : Json) : Coeffs Float :=
+  let a := (asArr j).map fun x => Float.ofBits (asNat x).toUInt64
+  let g := fun i => a.getD i 0.0
+  { readIops := g 0, readBw := g 1, writeIops := g 2, writeBw := g 3, trimIops := g 4, trimBw := g 5 }
+
+def paramsOf (cfg : Json) : Params Float :=
+  { devs := (jarr cfg "devs").map fun d => match asArr d with
+      | [k, t] => ((asStr k).toList, asStr t == "hdd")
+      | _ => ([], false)
+    hdd := coeffsOf (jobj cfg "hdd")
+    ssd := coeffsOf (jobj cfg "ssd")
+    decay := 4.0
+    interval := 5
+    factor60 := Float.exp (Float.ofInt (-5) / 60.0)
+    factor300 := Float.exp (Float.ofInt (-5) / 300.0) }
+
+/-! ## running the operational model -/
+
+structure Run where
+  fs : FS
+  ost : OSt Float
+  crash : Option String := none
+  /-- model results, one list per tick -/
+  out : List (List Json) := []
+
+def rpOf (cg : String) : RPath := ((FS.comps cg).reverse).map String.toList
+
+def runOp (cfg : Params Float) (r : Run) (op : Json) : Run × Json :=
+  let k := jstr op "op"
+  if FS.isFsop k then ({ r with fs := r.fs.apply op }, Json.null) else
+  let w := r.fs.world
+  match k with
+  | "get" =>
+    let p := rpOf (jstr op "cg")
+    match addToCache w p r.ost with
+    | (.ok (), st) =>
+      let (vals, st, cr) := (jstrs op "f").foldl (fun (acc : List Json × OSt Float × Option String) name =>
+        let (vals, st, cr) := acc
+        if cr.isSome then acc else
+        match accOf name with
+        | none => (vals ++ [Json.mkObj [("unknown_accessor", Json.str name)]], st, cr)
+        | some a =>
+          let (res, st') := getAcc cfg w p a st
+          (vals ++ [resJson res], st', match res with | .crash c => some c | _ => none)) ([], st, none)
+      ({ r with ost := st, crash := cr }, Json.mkObj [("ctx", Json.bool true), ("v", Json.arr vals.toArray)])
+    | (_, st) => ({ r with ost := st }, Json.mkObj [("ctx", Json.bool false)])
+  | "kids" =>
+    let p := rpOf (jstr op "cg")
+    match addToCache w p r.ost with
+    | (.ok (), st) =>
+      match addChildren w p st with
+      | (.ok names, st') =>
+        ({ r with ost := st' }, Json.mkObj [("ctx", Json.bool true),
+          ("kids", mkStrs (sortStrs (names.map fun nm => relPath ((nm :: p).map l2s))))])
+      | (.crash c, st') => ({ r with ost := st', crash := some c }, Json.null)
+      | (_, st') => ({ r with ost := st' }, Json.mkObj [("ctx", Json.bool true), ("kids", mkStrs [])])
+    | (_, st) => ({ r with ost := st }, Json.mkObj [("ctx", Json.bool false)])
+  | "list" => (r, mkStrs (sortStrs (r.ost.keys.map fun p => relPath (p.map l2s))))
+  | "sys" => (r, sysJson r.ost.sys)
+  | _ => (r, Json.null)
+
+def runTick (cfg : Params Float) (r : Run) (tick : Json) : Run :=
+  if r.crash.isSome then r else
+  let fs := (jarr tick "pre").foldl FS.apply r.fs
+  match updateContext cfg fs.world r.ost with
+  | .crash c => { r with fs := fs, crash := some c, out := r.out ++ [[]] }
+  | .unavailable => { r with fs := fs, crash := some "updateContext", out := r.out ++ [[]] }
+  | .ok ost =>
+    let (r, outs) := (jarr tick "ops").foldl (fun (acc : Run × List Json) op =>
+      let (r, outs) := acc
+      if r.crash.isSome then acc else
+      let (r, j) := runOp cfg r op
+      (r, outs ++ [j])) ({ r with fs := fs, ost := ost }, [])
+    { r with out := r.out ++ [outs] }
+
+def initFS (sc : Json) : FS :=
+  let fs : FS := { dirs := [], next := 1, proc := [], dtype := (jbool? (jobj sc "cfg") "dtype").getD true }
+  let fs := fs.materialize [] (jobj sc "tree")
+  match jobj sc "proc" with
+  | Json.obj kvs => kvs.foldl (fun fs k v => match v with
+      | Json.str c => fs.setProc k (some c)
+      | _ => fs) fs
+  | _ => fs
+
+/-! ## comparing traces; ids are compared up to a one-to-one renaming -/
+
+structure IdMap where
+  pairs : List (Json × Json) := []   -- (model incarnation, implementation inode)
+  ok : Bool := true
+
+def IdMap.add (m : IdMap) (a b : Json) : IdMap :=
+  if isNull a || isNull b then { m with ok := m.ok && isNull a == isNull b } else
+  match m.pairs.find? fun pr => pr.1 == a || pr.2 == b with
+  | some pr => { m with ok := m.ok && pr.1 == a && pr.2 == b }
+  | none => { m with pairs := (a, b) :: m.pairs }
+
+/-- compares the result of one op; returns (equal apart from ids, id map) -/
+def cmpOp (op model impl : Json) (ids : IdMap) : Bool × IdMap :=
+  if jstr op "op" == "get" && asBool (jobj model "ctx") && asBool (jobj impl "ctx") then
+    let names := jstrs op "f"
+    let mv := jarr model "v"
+    let iv := jarr impl "v"
+    if mv.length != names.length || iv.length != names.length then (false, ids) else
+    (names.zip (mv.zip iv)).foldl (fun (acc : Bool × IdMap) x =>
+      let (name, a, b) := x
+      if name == "id" then (acc.1, acc.2.add a b) else (acc.1 && a == b, acc.2)) (true, ids)
+  else (model == impl, ids)
+
+/-! ## the reference (`holds`) -/
+
+structure TickInfo where
+  fs : FS                      -- files when the tick began (after `pre`)
+  touched : List (String × String)   -- (cgroup, accessor) of every `get` of the tick
+  dirty : Bool                 -- some file operation happened inside the tick
+
+def touchedAny (t : TickInfo) (cg : String) (names : List String) : Bool :=
+  t.touched.any fun x => x.1 == cg && names.contains x.2
+
+/-- swap-out averages and totals by recursion over the ticks (independent of `updateContext`'s state) -/
+def refSys (cfg : Params Float) (ticks : Array TickInfo) : Nat → Res (SysCtx Float)
+  | 0 => match ticks[0]? with
+    | some t => nextSys cfg t.fs.world SysCtx.init
+    | none => .unavailable
+  | n + 1 => match ticks[n + 1]? with
+    | some t => (refSys cfg ticks n).bind fun prev => nextSys cfg t.fs.world prev
+    | none => .unavailable
+
+/-- the archive a context has in tick `n`: what was obtained in tick `n-1`, if the same directory
+was still a valid cgroup when tick `n` began -/
+def refArch (cfg : Params Float) (ticks : Array TickInfo) (sys : Nat → SysCtx Float) : Nat → RPath → Arch Float
+  | 0, _ => Arch.empty
+  | n + 1, p =>
+    match ticks[n]?, ticks[n + 1]? with
+    | some prev, some cur =>
+      match prev.fs.world.openDir p with
+      | none => Arch.empty
+      | some inc =>
+        if (cur.fs.world.file inc fControllers).isNone then Arch.empty else
+        let e : RefEnv Float := { w := prev.fs.world, sys := sys n, cfg := cfg, arch := refArch cfg ticks sys n }
+        let cg := relPath (p.map l2s)
+        { avg := if touchedAny prev cg ["average_usage", "memory_growth"] then (refAverageUsage e p).toOption else none
+          io := if touchedAny prev cg ["io_cost_cumulative", "io_cost_rate"] then (refIoCostCum e p).toOption else none
+          pg := if touchedAny prev cg ["pg_scan_cumulative", "pg_scan_rate"] then (refPgScanCum e p).toOption else none }
+    | _, _ => Arch.empty
+
+structure Hold where
+  viol : List String := []
+  ids : IdMap := {}
+  checked : Nat := 0
+  temporalChecked : Nat := 0
+
+def Hold.fail (h : Hold) (c : String) : Hold := if h.viol.contains c then h else { h with viol := h.viol ++ [c] }
 
 def handle (j : Json) : Json :=
-  Json.mkObj [("id", Json.str (jstr (jobj j "s") "id")), ("error", Json.str "engine fsread not implemented")]
+  let sc := jobj j "s"
+  let tr := jobj j "t"
+  let id := jstr sc "id"
+  let cfg := paramsOf (jobj sc "cfg")
+  let ticksJ := jarr sc "ticks"
+  -- operational model
+  let run := ticksJ.foldl (runTick cfg) { fs := initFS sc, ost := OSt.init }
+  let implTicks := (jarr tr "ticks").map asArr
+  let outcome := jstr tr "outcome"
+  let implThrow := implTicks.any fun ops => ops.any fun r => (jarr r "v").any fun v => jhas v "throw"
+  let implCrashed := outcome != "ok" || implThrow
+  -- accepts
+  let (same, ids) := (ticksJ.zip (run.out.zip implTicks)).foldl (fun (acc : Bool × IdMap) x =>
+    let (tick, mops, iops) := x
+    ((jarr tick "ops").zip (mops.zip iops)).foldl (fun (acc : Bool × IdMap) y =>
+      let (op, m, i) := y
+      let (eq, ids) := cmpOp op m i acc.2
+      (acc.1 && eq, ids)) acc) (true, {})
+  let shapeOk := run.out.length == implTicks.length &&
+    (run.out.zip implTicks).all fun x => x.1.length == x.2.length
+  let accepts :=
+    match run.crash with
+    | some _ => implCrashed
+    | none => !implCrashed && shapeOk && same && ids.ok && jnat tr "err_mismatch" == 0
+  -- holds: per-tick snapshots
+  let (infos, _) := ticksJ.foldl (fun (acc : Array TickInfo × FS) tick =>
+    let fs0 := (jarr tick "pre").foldl FS.apply acc.2
+    let ops := jarr tick "ops"
+    let fsEnd := ops.foldl (fun fs op => if FS.isFsop (jstr op "op") then fs.apply op else fs) fs0
+    let touched := ops.foldl (fun l op => if jstr op "op" == "get" then l ++ (jstrs op "f").map fun f => (relPath (FS.comps (jstr op "cg")).reverse, f) else l) []
+    (acc.1.push { fs := fs0, touched := touched, dirty := ops.any fun op => FS.isFsop (jstr op "op") }, fsEnd))
+    ((#[] : Array TickInfo), initFS sc)
+  let sysRes := fun n => refSys cfg infos n
+  let sysAt := fun n => match sysRes n with | .ok sx => sx | _ => SysCtx.init
+  let refCrash := (List.range infos.size).any fun n => (sysRes n).isCrash
+  let hold : Hold := if outcome != "ok" || refCrash then {} else
+    ((List.range ticksJ.length).zip (ticksJ.zip implTicks)).foldl (fun (h : Hold) x =>
+      let (n, tick, iops) := x
+      match infos[n]? with
+      | none => h
+      | some info =>
+      let histClean := (List.range n).all fun k => match infos[k]? with | some t => !t.dirty | none => true
+      let env : RefEnv Float := { w := info.fs.world, sys := sysAt n, cfg := cfg, arch := refArch cfg infos sysAt n }
+      -- (cg, accessor) -> first obtained value in this tick
+      let (h, _, _) := ((jarr tick "ops").zip iops).foldl (fun (acc : Hold × Bool × List ((String × String) × Json)) y =>
+        let (h, clean, seen) := acc
+        let (op, ir) := y
+        let k := jstr op "op"
+        if FS.isFsop k then (h, false, seen) else
+        if k == "sys" then
+          (if clean && ir != sysJson (sysAt n) then h.fail "system" else h, clean, seen)
+        else if k == "kids" then
+          let p := rpOf (jstr op "cg")
+          let want := match env.w.openDir p with
+            | none => Json.mkObj [("ctx", Json.bool false)]
+            | some _ =>
+              let names := match refChildren env p with | .ok l => l | _ => []
+              Json.mkObj [("ctx", Json.bool true), ("kids", mkStrs (sortStrs (names.map fun nm => relPath ((nm :: p).map l2s))))]
+          (if clean && ir != want then h.fail "reference.children" else h, clean, seen)
+        else if k != "get" then (h, clean, seen) else
+        let cg := relPath (FS.comps (jstr op "cg")).reverse
+        let p := rpOf (jstr op "cg")
+        let hasCtx := asBool (jobj ir "ctx")
+        let h := if clean && hasCtx != (env.w.openDir p).isSome then h.fail "reference.context" else h
+        if !hasCtx then (h, clean, seen) else
+        ((jstrs op "f").zip (jarr ir "v")).foldl (fun (acc : Hold × Bool × List ((String × String) × Json)) z =>
+          let (h, clean, seen) := acc
+          let (name, iv) := z
+          if jhas iv "throw" then (h, clean, seen) else   -- judged by `crashOk` below
+          -- stability
+          let (h, seen) := match seen.find? fun e => e.1 == (cg, name) with
+            | some e => (if e.2 != iv then h.fail "stable" else h, seen)
+            | none => (h, if isNull iv then seen else ((cg, name), iv) :: seen)
+          -- reference
+          let h := if !clean || (isTemporal name && !histClean) then h else
+            match accOf name with
+            | none => h
+            | some a =>
+              let want := resJson (refAcc env p a)
+              let h := { h with checked := h.checked + 1,
+                                temporalChecked := h.temporalChecked + (if isTemporal name then 1 else 0) }
+              if name == "id" then { h with ids := h.ids.add want iv }
+              else if want != iv then h.fail ("reference." ++ name) else h
+          (h, clean, seen)) (h, clean, seen)) (h, true, [])
+      h) {}
+  let viol := hold.viol ++ (if hold.ids.ok then [] else ["identity"])
+  -- a crash of the implementation is the model's business only when the model predicts it
+  let crashOk := !implCrashed || run.crash.isSome
+  let viol := if crashOk then viol else viol ++ ["outcome:" ++ (if outcome != "ok" then outcome else "throws")]
+  let dtype := (jbool? (jobj sc "cfg") "dtype").getD true
+  let cls := if viol.isEmpty then "" else if !dtype then "no-d_type" else viol.headD ""
+  verdict id accepts viol.isEmpty viol cls
+    [("model_crash", match run.crash with | some c => Json.str c | none => Json.null),
+     ("checked", jNat hold.checked), ("temporal_checked", jNat hold.temporalChecked),
+     ("model", if accepts then Json.null else Json.arr (run.out.map fun l => Json.arr l.toArray).toArray)]
 
 end Driver.Fsread
 
